@@ -25,7 +25,10 @@ def run(ctx, pid):
             pm = [0, 200, 400][i % 3]
             if sc == "pool_blocked" and i > 0:
                 continue
-            r = common.run([exe, str(seed), sc, str(pm), str(scale)], timeout=240)
+            r = common.run([exe, str(seed), sc, str(pm), str(scale)], timeout=300)
+            if r.returncode == 124:
+                # a wall-clock limit is not a verdict (the client has its own progress watchdog): once more, alone, with a generous limit
+                r = common.run([exe, str(seed), sc, str(pm), str(scale)], timeout=3000)
             out = r.stdout.split("\n")
             for l in out:
                 if l.startswith("OK "):
@@ -79,6 +82,9 @@ def merge(parts):
     out = {"evaluations": 0, "distinct_nontrivial": 0, "rule": "", "samples": [], "distribution": {}, "mismatches": [],
            "failures": [], "notes": []}
     for label, r in parts:
+        if int(r.get("evaluations", 0) or 0) <= 0 and not r.get("mismatches"):
+            # a part that judged nothing ties nothing: it must not pass silently
+            r = dict(r, mismatches=[{"what": "correspondence part '%s' produced no evaluation at all (harness printed nothing?)" % label}])
         out["evaluations"] += int(r.get("evaluations", 0))
         out["distinct_nontrivial"] += int(r.get("distinct_nontrivial", 0))
         out["rule"] += ("" if not out["rule"] else " || ") + "[%s] %s" % (label, r.get("rule", ""))
